@@ -474,7 +474,9 @@ class PETScDirectSolver(DirectSolver):
             raise RuntimeError(format_singular_error(system, matrix))
 
         if not system.under_complex_step and self._lin_rhs_checker is not None and mode == 'rev':
-            self._lin_rhs_checker.add_solution(b_vec, sol_array, system, copy=True)
+            # cache x_vec rather than sol_array: with an assembled jacobian sol_array is the
+            # unscaled solution, while b_vec and x_vec are both back in scaled form by now.
+            self._lin_rhs_checker.add_solution(b_vec, x_vec, system, copy=True)
 
     def preferred_sparse_format(self):
         """
